@@ -1,32 +1,68 @@
-(* Pack_C37.v — compact transport of strings in the generated case tables.
-   A string c1 c2 ... cn (code points < 2^21) travels as the single number whose binary digits
-   are 1 c1 c2 ... cn, 21 bits per code point (the leading 1 keeps leading zeros and the empty
-   string).  Not used by any theorem; only by the case tables the harness writes. *)
-From Coq Require Import List NArith.
+(* Pack_C37.v — compact transport of the generated case tables (not used by any theorem).
+   Every case carries one table of its distinct strings, written as Coq string literals (UTF-8
+   bytes, decoded here to code points); inputs and recorded results refer to table entries. *)
+From Coq Require Import List NArith ZArith String Ascii.
 Import ListNotations.
-From Verif Require Import Base.Val.
+From Verif Require Import Base.Val C37.Model_C37.
 
-(* the k low bits of p and what is left above them *)
-Fixpoint low_bits (k : nat) (p : positive) : N * N :=
-  match k with
-  | O => (0%N, Npos p)
-  | S k' => match p with
-            | xH => (1%N, 0%N)
-            | xO p' => let (v, r) := low_bits k' p' in (N.double v, r)
-            | xI p' => let (v, r) := low_bits k' p' in (N.succ_double v, r)
-            end
+Fixpoint bytes_of (s : string) : list N :=
+  match s with EmptyString => [] | String a r => N_of_ascii a :: bytes_of r end.
+(* UTF-8 bytes -> code points (well-formed input only; the harness writes Python's encoding) *)
+Fixpoint dec8 (l : list N) : str :=
+  match l with
+  | [] => []
+  | b :: r =>
+      if (b <? 128)%N then b :: dec8 r
+      else if (b <? 224)%N then
+        match r with
+        | b2 :: r2 => ((b - 192) * 64 + (b2 - 128))%N :: dec8 r2
+        | _ => []
+        end
+      else if (b <? 240)%N then
+        match r with
+        | b2 :: b3 :: r3 => ((b - 224) * 4096 + (b2 - 128) * 64 + (b3 - 128))%N :: dec8 r3
+        | _ => []
+        end
+      else
+        match r with
+        | b2 :: b3 :: b4 :: r4 =>
+            ((b - 240) * 262144 + (b2 - 128) * 4096 + (b3 - 128) * 64 + (b4 - 128))%N :: dec8 r4
+        | _ => []
+        end
   end.
-Fixpoint unpack (fuel : nat) (n : N) (acc : str) : str :=
+Definition S2L (s : string) : str := dec8 (bytes_of s).
+(* a case's table of distinct strings, and a reference into it *)
+Definition TBL (l : list str) (i : N) : str := nth (N.to_nat i) l [].
+(* one rendered parameter (key, value) as recorded result *)
+Definition P (k v : str) : val := VL [VS k; VS v].
+
+Example S2L_ascii : S2L "id" = [105; 100]%N. Proof. reflexivity. Qed.
+Example S2L_utf8 : S2L "é€𝄞" = [233; 8364; 119070]%N. Proof. reflexivity. Qed.
+Example S2L_quote : S2L "a""b" = [97; 34; 98]%N. Proof. reflexivity. Qed.
+
+(* digest of a rendered parameter list for the batches stream: a run of >= 3 consecutive
+   parameters with the same key is recorded as key, first value, last value, length *)
+Fixpoint run_of (k : str) (l : list (str * str)) : list str * list (str * str) :=
+  match l with
+  | (k', v) :: r => if str_eqb k' k then let (vs, rest) := run_of k r in (v :: vs, rest) else ([], l)
+  | [] => ([], [])
+  end.
+Fixpoint collapse (fuel : nat) (l : list (str * str)) : list val :=
   match fuel with
-  | O => acc
-  | S f => match n with
-           | 0%N => acc
-           | Npos xH => acc
-           | Npos p => let (v, r) := low_bits 21 p in unpack f r (v :: acc)
-           end
+  | O => []
+  | S f =>
+      match l with
+      | [] => []
+      | (k, v) :: r =>
+          let (vs, rest) := run_of k r in
+          match vs with
+          | _ :: _ :: _ => VL [VS k; VS v; VS (last vs []); VZ (Z.of_nat (S (List.length vs)))] :: collapse f rest
+          | _ => P k v :: collapse f r
+          end
+      end
   end.
-Definition U (n : N) : str := unpack (N.to_nat (N.size n)) n [].
+Definition digest (l : list (str * str)) : val := VL (collapse (S (List.length l)) l).
 
-Example U_empty : U 1 = []. Proof. reflexivity. Qed.
-Example U_id : U ((1 * 2097152 + 105) * 2097152 + 100) = [105; 100]%N. Proof. reflexivity. Qed.
-Example U_nul : U (2097152 * 2097152 + 65) = [0; 65]%N. Proof. reflexivity. Qed.
+(* stream "batches": (q, base, max) -> digest of params() of every batch *)
+Definition run_batches_d (i : query * Z * Z) : val :=
+  let '(q, b, m) := i in VL (map (fun x => digest (params x)) (batches qlen q b m)).
